@@ -117,8 +117,11 @@ def gurobi(f):
 def ecos(f):
     import ecos as E
     A, b, sense, lb, ub, vt, c = _arrays(f)
+    mi = {}
     if np.any(vt != 'C'):
-        return ('unsupported', None, None)
+        mi = {'bool_vars_idx': [int(i) for i in np.where(vt == 'B')[0]],
+              'int_vars_idx': [int(i) for i in np.where(vt == 'I')[0]],
+              'mi_max_iters': 10000000}
     n = A.shape[1]
     eq = np.where(sense == 1)[0]
     iq = np.where(sense == 0)[0]
@@ -159,6 +162,9 @@ def ecos(f):
         if keep.any():
             kw = {'A': sp.csc_matrix(Ae[keep]), 'b': b[eq][keep]}
     try:
+        kw.update(mi)
+        if mi:
+            kw['mi_verbose'] = False
         sol = E.solve(c, G, h, {'l': nl, 'q': qd, 'e': ne}, verbose=False, **kw)
     except Exception as ex:
         return ('failed', None, str(ex)[:80])
